@@ -229,7 +229,11 @@ def build_cases(tier):
     cases += product({'sub': ['protected-list'], 'kind': ['ragged'], 'target': ['values', 'README.txt', 'indices/arrayvalues.bin'],
                       'order': ['user-first', 'protected-first', 'protected-last']})
     cases += product({'sub': ['read'], 'kind': ['array', 'ragged'], 'target': ['README.txt', 'arraydescription.json']})
-    cases += product({'sub': ['user'], 'kind': ['array', 'ragged'], 'name': ['notes.txt', 'é.json', 'sub.json', 'ünï.txt'],
+    cases += product({'sub': ['user'], 'kind': ['array', 'ragged'], 'name': ['notes.txt', 'é.json', 'sub.json', 'ünï.txt',
+                                                                                    # names that merely BEGIN with a protected name are user files
+                                                                                    'arrayvalues.bin.sha256.txt', 'README.txt.orig.txt',
+                                                                                    'metadata.json.bak.json', 'values_units.txt',
+                                                                                    'indices.json'],
                       'content': ['simple', 'numpy', 'empty', 'ascii', 'unicode'], 'overwrite': [False, True],
                       'existing': [False, True]},
                      valid=lambda c: (c['name'].endswith('.json')) == (c['content'] in USER_DICTS))
